@@ -29,10 +29,17 @@ func init() {
 	vlib.Register(&vlib.Prop{
 		ID:    "C06",
 		Level: "fault_enumeration",
-		Cases: func(tier string) int { return forcedCells() + vlib.TierN(tier, 480, 120000) },
+		Cases: func(tier string) int { return forcedCells() + lifecycleCells(tier) + vlib.TierN(tier, 480, 120000) },
 		Rule: "forced part (all 432 cells in both tiers): a message is parked at one of 6 points of its path {inside the subscriber decorator, received but not dispatched, dispatched but not started, inside the handler (gate), before publishing, before settlement} " +
 			"x {1,2,8} concurrent Close callers x subscriber {scripted, scripted that emits one more message from its Close(), scripted that ignores the context, scripted whose Close() waits until every delivered message is settled (like a broker client draining in-flight messages), GoChannel buffer 0, GoChannel buffer 4} x CloseTimeout {1 h, 30 ms with the handler held longer} " +
 			"x {handleClose goroutine parked until Close signalled and Run cancelled the context, not parked}; Close is called while the message is parked, then the park is released, the handler is held at a gate until every Close call returned or the process is quiescent, then the gate opens. " +
+			"life-cycle part (60 cells per round, 1 round quick / 4 rounds thorough with other handler counts and park positions): Close arrives at a corner of the router's life cycle instead of inside a message's path: " +
+			"{while Run's start-up is inside the Subscribe call of the k-th of 2..4 handlers (at least one more handler still to be started; in later rounds sometimes the last one), while it is parked right after the k-th handler was marked started, while an explicit RunHandlers call starts handlers added to a running router (parked the same two ways), " +
+			"after a Run that failed half-way because one handler's Subscribe returned an error when other handlers were already started, before Run (Run is called afterwards)} x {1,2,8} concurrent Close callers x {scripted subscribers, one shared GoChannel} x a scenario variant: " +
+			"start-up scenarios {an already started handler is inside an invocation (held at a gate) when Close arrives, idle}; failed Run {message inside the handler, message dispatched but parked before the handler function}; " +
+			"Close before Run {Run parked in its start-up and the handleClose goroutines parked so that a message is forced into an already started handler, no parks: every subscriber emits one message right after Subscribe and the schedule is only perturbed}. " +
+			"CloseTimeout is 1 h in the start-up scenarios (Close has to succeed) and 30 ms after a failed Run / before Run (there the unchanged router reports a time-out, which the oracle accepts: it only forbids nil while an invocation is in progress or before a later start). " +
+			"After everything returned, one more Close call is made (repeated Close) and every handler's subscription gets one late message: it must not be handled if any Close call had returned nil. " +
 			"random part: routers of 1..3 handlers, 1..10 messages, handlers of random duration, Close (1..3 callers) or Run-context cancel at a random moment, scripted or GoChannel subscribers. " +
 			"Oracle: each Close caller samples, right after Close returned nil, every emitted message: a message whose handler was entered must have left the handler and be settled; no handler entry stamp may be later than a nil-returning Close's return stamp; " +
 			"never-handled messages are never acked; every Close call and Run return (quiescence detector); with a handler held beyond CloseTimeout every call returns and none returns nil while it runs; Run does not return while a handler runs unless Close timed out; each handler's subscriber and publisher saw Close(). " +
@@ -41,6 +48,7 @@ func init() {
 			"'in progress' is observed as: handler function entered and (not yet left, or the consumed message not yet settled) at the sampling instant taken by the Close caller after Close returned",
 			"for GoChannel subscribers the consumed copy is visible only once the handler saw it; 'never handled => never acked' is checked for scripted subscribers only",
 			"30 ms CloseTimeout cases are judged only by what they must not do (return nil while a handler runs; hang): no upper bound on the measured duration",
+			"life-cycle corners: after a failed Run and for Close before Run nothing is demanded of Run's own result, and Close() on the subscribers/publishers is demanded only where Close found a router whose start-up succeeded (a Close that reports the time-out error promises nothing about handlers); which handler a failing start-up reaches first is decided by Go's map iteration, so the failed-Run set-up is repeated (at most 10 times) until a handler was started before the failing one",
 		},
 		Run: run,
 	})
@@ -49,6 +57,9 @@ func init() {
 func run(e *vlib.Env) vlib.Result {
 	if e.Idx < forcedCells() {
 		return forced(e)
+	}
+	if e.Idx < forcedCells()+lifecycleCells(e.Tier) {
+		return lifecycle(e, e.Idx-forcedCells())
 	}
 	return random(e)
 }
@@ -62,6 +73,8 @@ type tracked struct {
 	entries atomic.Int32
 	// delivered is set when the scripted subscriber handed the message to its consumer (the router side)
 	delivered atomic.Bool
+	// refused is set when the subscriber side could not hand the message out (subscription ended / pub-sub closed)
+	refused atomic.Bool
 }
 
 type closeRec struct {
@@ -80,6 +93,8 @@ type world struct {
 	runErr string
 	// sample at Run's return
 	runInProgress []string
+	// lenientRun: life-cycle corners in which the statement says nothing about Run's result (failed Run, Run after Close)
+	lenientRun bool
 }
 
 func (w *world) track(uuid string, emitted *message.Message) *tracked {
@@ -461,10 +476,10 @@ func judge(w *world, res *vlib.Result, spec string, longTimeout bool) {
 			res.Fail("close-nil-while-handler-running", "Close returned nil (call [%d,%d]) while a handler invocation was in progress: %v; cell: %s", c.start, c.end, c.inProgress, spec)
 		}
 	}
-	if w.runErr != "" {
+	if w.runErr != "" && !w.lenientRun {
 		res.Fail("run-error", "Run returned %q: %s", w.runErr, spec)
 	}
-	if len(runIP) > 0 && !anyTimeout {
+	if len(runIP) > 0 && !anyTimeout && !w.lenientRun {
 		res.Fail("run-returned-while-handler-running", "Run returned (stamp %d) while a handler invocation was in progress although no Close timed out: %v; cell: %s", w.runEnd.Load(), runIP, spec)
 	}
 	for _, t := range ts {
